@@ -98,9 +98,9 @@ Proof.
 Qed.
 (* ... and in __get_index_nearest_neighbor: |value - values| *)
 Lemma closest_value_minus_values : forall x vs,
-  np_argmin (np_abs (np_rsub_scalar (Fin x) (np_array_Q vs))) = rmap Z.of_nat (find_closest_index (Fin x) vs).
+  np_argmin (np_abs (np_rsub_scalar (Fin x) vs)) = rmap Z.of_nat (find_closest_index (Fin x) vs).
 Proof.
-  intros x vs. rewrite <- closest_values_minus_value. unfold np_abs, np_rsub_scalar, np_sub_scalar, np_array_Q.
+  intros x vs. rewrite <- closest_values_minus_value. unfold np_abs, np_rsub_scalar, np_sub_scalar.
   rewrite !map_map. f_equal. apply map_ext. intros v. cbn [fv_abs fv_minus_q q_minus_fv]. rewrite Qabs_minus_sym. reflexivity.
 Qed.
 
@@ -217,7 +217,8 @@ Section Src.
   Proof.
     intros s value values. unfold gen_p_get_index_nearest_neighbor, get_index_nn. rewrite range_test.
     destruct (in_axis_range value values) as [[|]|e] eqn:R; cbn [rbind negb rmap wlift]; try reflexivity.
-    destruct (in_range_finite _ _ R) as [x ->]. rewrite closest_value_minus_values.
+    destruct (in_range_finite _ _ R) as [x ->]. unfold np_array_Q.
+    first [rewrite closest_value_minus_values | rewrite closest_values_minus_value].
     destruct (find_closest_index (Fin x) values); reflexivity.
   Qed.
 
@@ -225,7 +226,7 @@ Section Src.
     gen_p_find_closest_index V s value values = wlift (rmap Z.of_nat (find_closest_index value values)).
   Proof.
     intros s value values. unfold gen_p_find_closest_index, py_ndarray_is_list. cbn [wbind].
-    rewrite closest_values_minus_value. destruct (find_closest_index value values); reflexivity.
+    unfold np_array_Q. rewrite closest_values_minus_value. destruct (find_closest_index value values); reflexivity.
   Qed.
 
   (* ---- the three per-axis lookups ------------------------------------------------------------------------------------ *)
